@@ -116,6 +116,7 @@ type Contract struct {
 // to Callee inside the function.
 type SiteAssert struct {
 	Invariant bool // invariant of the callback loop of the call (callee has a `callback` clause)
+	Ordered   bool // `at callee#n ordered label: guard`: under the guard (final state) the comparator was a strict weak order on the elements, so the trusted "ascending w.r.t. the comparator" fact of the callee is assumed
 	Callee string
 	N      int
 	Assume bool // definitional assumption about ghost state (listed in the evidence), not an obligation
@@ -314,11 +315,12 @@ func (sp *Spec) ReadSpecFile(path, defaultPkg string) error {
 		case "at":
 			// at callee#n assert [tags] label: expr
 			f := strings.Fields(rc.rest)
-			if cur == nil || len(f) < 3 || !(strings.HasPrefix(f[1], "assert") || strings.HasPrefix(f[1], "assume") || strings.HasPrefix(f[1], "invariant")) {
+			if cur == nil || len(f) < 3 || !(strings.HasPrefix(f[1], "assert") || strings.HasPrefix(f[1], "assume") || strings.HasPrefix(f[1], "invariant") || strings.HasPrefix(f[1], "ordered")) {
 				return fmt.Errorf("%s: expected `at callee#n assert expr`", rc.pos)
 			}
 			isAssume := strings.HasPrefix(f[1], "assume")
 			isInv := strings.HasPrefix(f[1], "invariant")
+			isOrd := strings.HasPrefix(f[1], "ordered")
 			callee, n := f[0], 0
 			if i := strings.Index(callee, "#"); i > 0 {
 				if callee[i+1:] != "*" {
@@ -333,13 +335,16 @@ func (sp *Spec) ReadSpecFile(path, defaultPkg string) error {
 			if isInv {
 				kwd = "invariant"
 			}
+			if isOrd {
+				kwd = "ordered"
+			}
 			rest := strings.TrimSpace(strings.SplitN(rc.rest, kwd, 2)[1])
 			tags, label, body := splitTagsLabel(rest)
 			e, err := ParseExpr(body)
 			if err != nil {
 				return fmt.Errorf("%s: %v in %q", rc.pos, err, body)
 			}
-			cur.Sites = append(cur.Sites, &SiteAssert{Callee: callee, N: n, Assume: isAssume, Invariant: isInv, C: &Clause{Kind: kwd, Label: label, Tags: tags, E: e, Text: body, Pos: rc.pos}})
+			cur.Sites = append(cur.Sites, &SiteAssert{Callee: callee, N: n, Assume: isAssume, Invariant: isInv, Ordered: isOrd, C: &Clause{Kind: kwd, Label: label, Tags: tags, E: e, Text: body, Pos: rc.pos}})
 		case "loop":
 			n, err := strconv.Atoi(strings.Fields(rc.rest)[0])
 			if err != nil || cur == nil {
